@@ -11,7 +11,7 @@ drv_policy ops (stateful: configurations, objects and one world of connections a
   obj <id> hooked [ names ] <hook> <hook> <hook>        hook = -  |  L <ErrName> [ allowed names ]   (get set del)
   acc <cfgId> <objId> getattr|setattr|delattr|callattr <name>      name = S<cp>,<cp>.. | B<hex> | O
   ctx <cfgId> <objId>                                              _handle_ctxexit
-  cmp <cfgId> <typeObjId> <name>                                   _handle_cmp on type(obj)
+  cmp <cfgId> <objId> <typeObjId> <name>                           _handle_cmp (object and its type; measured variant)
   old <cfgId> <objId> <attemptName> <fallbackName> <T|F>           _handle_oldslicing; T: calling the first value raises
   open <i> classic|plain { key value }*   establish connection i with a literal dict (keys as below)
                                keys: safe exposed public all get set del pickle import inst oldstyle (T|F),
@@ -236,10 +236,12 @@ def policyOp (st : PState) : List String → PState × String
           parseName a, parseName f, parseBool cr with
     | some cfg, some obj, some an, some fn, some b => (st, showRes (handleOldSlicing cfg obj an fn b))
     | _, _, _, _, _ => (st, "bad-op")
-  | ["cmp", c, o, n] =>
-    match (nat? c).bind (fun k => List.lookup k st.cfgs), (nat? o).bind (fun k => List.lookup k st.objs), parseName n with
-    | some cfg, some obj, some nm => (st, showRes (handleCmp cfg obj nm))
-    | _, _, _ => (st, "bad-op")
+  | ["cmp", c, o, t, n] =>
+    match (nat? c).bind (fun k => List.lookup k st.cfgs), (nat? o).bind (fun k => List.lookup k st.objs),
+          (nat? t).bind (fun k => List.lookup k st.objs), parseName n with
+    | some cfg, some obj, some ty, some nm =>
+      (st, showRes (handleCmp Gen.Policy.cmpRespectsObjectHook cfg obj ty nm))
+    | _, _, _, _ => (st, "bad-op")
   | "open" :: i :: k :: rest =>
     match nat? i, parseClassic k, parseOverlay rest {} with
     | some i, some classic, some ov =>
